@@ -211,3 +211,35 @@ def diagram_family(seed, n):
                     "random systems (groups, multi-source, PMux, phases, names) and systems reached through edit histories; make_diag / make_hdiag rendered by Graphviz to JSON and read back: node set, edge set, clusters, default->kind->name precedence, caller's config untouched, heat labels (>= 3 significant digits of the duration-weighted loss), colour order, warm/cold extremes, legend; _nice_float on 200 random magnitudes per seed",
                     "trees <= 8 components; 5-edit histories")
     return res
+
+
+def helper_family(seed, n):
+    """validation of the assumed contracts behind the P obligations of diagram.py on concrete values: exponent of '{:e}'.format,
+    digits kept by round()/'{}'.format, _gcolor against the clamped linear mix through matplotlib"""
+    import sysloss.diagram as D, matplotlib as mpl
+    from contracts.diagram import _shown_ok
+    rnd = _rnd(seed, 977)
+    fails, ev = [], 0
+    vals = [0.0, 1.0, -1.0, 999.5, 0.9995, 9.9999996e-4, 9.9999994e-4, 1e-13, 9.99e-14, 9.9999999e7, 1e8, 1e-3, 1e3, 123456.7, 5e7]
+    vals += [rnd.choice((1, 1, 1, -1)) * rnd.uniform(1, 10) * 10.0 ** rnd.randint(-15, 9) for _ in range(n)]
+    for f in vals:
+        ev += 1
+        pw = int("{:e}".format(f).split("e")[1])
+        if f != 0 and not (10.0 ** pw * (1 - 5e-7) <= abs(f) < 10.0 ** (pw + 1)):
+            fails.append({"key": "helper.assumed-exponent", "text": "'{:e}'.format(%r) has exponent %d outside the assumed contract" % (f, pw), "props": ["C19"]}); continue
+        try:
+            t = D._nice_float(f)
+        except Exception as e:
+            fails.append({"key": "nice.exception", "text": "_nice_float(%r) raised %s" % (f, type(e).__name__), "props": ["C19"]}); continue
+        if not (isinstance(t, str) and _shown_ok(t, f)):
+            fails.append({"key": "nice.value", "text": "_nice_float(%r) = %r does not denote the value to 3 significant digits" % (f, t), "props": ["C19"]})
+    k1, k2 = mpl.colors.to_rgb(D._COLD_RGB), mpl.colors.to_rgb(D._WARM_RGB)
+    for m in [0.0, 1.0, -0.25, 1.75, 0.5] + [rnd.uniform(-0.2, 1.2) for _ in range(min(n, 2000))]:
+        ev += 1
+        c = min(max(m, 0.0), 1.0)
+        want = mpl.colors.to_hex([(1 - c) * x + c * y for x, y in zip(k1, k2)])
+        got = D._gcolor(m)
+        if got != want:
+            fails.append({"key": "gcolor.mix", "text": "_gcolor(%r) = %r, clamped linear mix is %r" % (m, got, want), "props": ["C19"]})
+    return {"evaluations": ev, "distinct_nontrivial": ev, "failures": fails[:20], "samples": [{"call": "_nice_float(123456.7)", "observed": D._nice_float(123456.7)}],
+            "bound": "%d magnitudes in 1e-15..1e10, %d mix values" % (len(vals), min(n, 2000) + 5), "rule": "label denotes the value to >= 3 significant digits; colour = clamped linear mix", "contract_evaluations": ev}
